@@ -151,9 +151,13 @@ def check_file_far(case, rec):
     props = {'t%d' % i: arr[i] for i in range(len(arr))}
     try:
         with TdmsWriter(out) as w:
-            w.write_segment([RootObject(props), ChannelObject('g', 't', arr), ChannelObject('g', 'after', np.arange(3, dtype='i4'))])
+            root = RootObject(props)
+            w.write_segment([root, ChannelObject('g', 't', arr), ChannelObject('g', 'after', np.arange(3, dtype='i4'))])
             if case['second_segment']:
-                w.write_segment([ChannelObject('g', 't', arr[::-1].copy())])
+                # the same root object again, one of its timestamp properties changed in place
+                root.properties['t0'] = arr[-1]
+                props['t0'] = arr[-1]
+                w.write_segment([root, ChannelObject('g', 't', arr[::-1].copy())])
         tf = TdmsFile.read(io.BytesIO(out.getvalue()))
         got = np.asarray(tf['g']['t'][:])
         after = np.asarray(tf['g']['after'][:])
